@@ -34,7 +34,7 @@ try:
     demo_cmd = meta["demo_cmd"].replace(agent, wt)
     # keep only the `go test` invocation (some commands also apply patches / copy files first)
     parts = [p.strip() for p in demo_cmd.replace(";", "&&").split("&&")]
-    gotest = [p.split(" (")[0].strip() for p in parts if "go test" in p]
+    gotest = [p.split(" (")[0].split("#")[0].strip().rstrip(")").strip() for p in parts if "go test" in p]
     gotest = [g[g.index("go test"):] for g in gotest]
     demo_cmd = "cd %s/gnark-plonky2-verifier && GOFLAGS=-mod=mod GOPROXY=off GOSUMDB=off %s" % (wt, gotest[-1]) if gotest else demo_cmd
     rc0, out0 = run(demo_cmd, cwd=wt)
